@@ -283,6 +283,23 @@ def header_obligation(item):
 
 
 # ------------------------------------------------------------------ layout metamorphic (real pipeline)
+def _split_top_commas(text):
+    parts, depth, cur = [], 0, []
+    for ch in text:
+        if ch in "([{":
+            depth += 1
+        elif ch in ")]}":
+            depth -= 1
+        if ch == "," and depth == 0:
+            parts.append("".join(cur))
+            cur = []
+        else:
+            cur.append(ch)
+    if "".join(cur).strip():
+        parts.append("".join(cur))
+    return parts
+
+
 def relayouts(src):
     """Meaning-preserving re-layouts of a script (python-verified: ast.dump of both is equal)."""
     lines = src.split("\n")
@@ -341,6 +358,56 @@ def relayouts(src):
             spaced.append(ln)
     out["spaces_in_calls"] = "\n".join(spaced)
     del out["hash_in_string"]
+    # one logical line over several physical lines (implicit joining inside brackets, with and without comments on
+    # the inner lines), and several simple statements on one physical line
+    import re as _re
+    multi, multi_c = [], []
+    for ln in lines:
+        st = ln.lstrip(" ")
+        if (is_code(ln) and "(" in ln and ln.rstrip().endswith(")") and '"' not in ln and "'" not in ln and "#" not in ln
+                and not st.startswith(("def ", "from ", "import ", "if ", "elif ", "while ", "for ", "class "))):
+            ind = ln[: len(ln) - len(st)]
+            k = ln.index("(")
+            inner = ln.rstrip()[k + 1:-1]
+            parts = [q.strip() for q in _split_top_commas(inner)] if inner.strip() else []
+            cont = ind + " " * 8
+            if parts:
+                multi += [ln[:k + 1]] + [cont + q + ("," if j < len(parts) - 1 else "") for j, q in enumerate(parts)] + [ind + ")"]
+                multi_c += [ln[:k + 1] + "  # open"] + [cont + q + ("," if j < len(parts) - 1 else "") + "  # arg"
+                                                       for j, q in enumerate(parts)] + [ind + ")  # close"]
+            else:
+                multi += [ln[:k + 1], ind + ")"]
+                multi_c += [ln[:k + 1] + "  # open", ind + ")"]
+        else:
+            multi.append(ln)
+            multi_c.append(ln)
+    out["calls_over_several_lines"] = "\n".join(multi)
+    out["calls_over_several_lines_commented"] = "\n".join(multi_c)
+    bs = []
+    for ln in lines:
+        st = ln.lstrip(" ")
+        m = _re.match(r"^(\s*[A-Za-z_]\w*\s*=\s*)(.+?)(\s[-+*]\s)(.+)$", ln)
+        if m and is_code(ln) and '"' not in ln and "'" not in ln and "#" not in ln and "(" not in ln and "[" not in ln:
+            bs += [m.group(1) + m.group(2) + m.group(3).rstrip() + " \\", " " * (len(ln) - len(st) + 8) + m.group(4)]
+        else:
+            bs.append(ln)
+    out["backslash_continuation"] = "\n".join(bs)
+    semi = []
+    simple = _re.compile(r"^\s*(?:[A-Za-z_][\w.]*\s*(?:[-+*/%]?=)\s*[^=].*|[A-Za-z_][\w.]*\(.*\))\s*$")
+    i = 0
+    while i < len(lines):
+        ln = lines[i]
+        nxt = lines[i + 1] if i + 1 < len(lines) else None
+        ind = len(ln) - len(ln.lstrip(" "))
+        if (nxt is not None and is_code(ln) and is_code(nxt) and "#" not in ln and "#" not in nxt and simple.match(ln)
+                and simple.match(nxt) and len(nxt) - len(nxt.lstrip(" ")) == ind and not ln.lstrip().startswith(("def ", "from ", "import "))
+                and not nxt.lstrip().startswith(("def ", "from ", "import "))):
+            semi.append(ln.rstrip() + "; " + nxt.strip())
+            i += 2
+        else:
+            semi.append(ln)
+            i += 1
+    out["semicolon_joined"] = "\n".join(semi)
     good = {}
     import ast
     try:
@@ -354,6 +421,20 @@ def relayouts(src):
         except SyntaxError:
             continue
     return good
+
+
+def _multiline_string_lines(text):
+    import io
+    import tokenize
+    out = set()
+    try:
+        for tok in tokenize.generate_tokens(io.StringIO(text).readline):
+            if tok.type == tokenize.STRING and tok.end[0] != tok.start[0]:
+                for ln in text.split("\n")[tok.start[0] - 1:tok.end[0]]:
+                    out.add(ln.strip())
+    except (tokenize.TokenError, IndentationError, SyntaxError):
+        pass
+    return out
 
 
 def layout_obligation(item):
@@ -372,15 +453,27 @@ def layout_obligation(item):
     res.sample = {"obligation": oid, "script": src, "base": base[0]}
     for st, ln, reason in [(x[0], x[2], x[3]) for x in base[2]]:
         pass
-    for _scope, _depth, ln, reason in base[2]:
-        if reason not in ("print", "host-only", "fragment"):
+    def audit(text, ignored, where):
+        """Every skipped line is a host-only statement, or a piece of a multi-line string (docstring)."""
+        doc_lines = _multiline_string_lines(text)
+        for _scope, _depth, ln, reason in ignored:
+            if reason in ("print", "host-only"):
+                continue
+            if reason == "fragment" and ln.strip() in doc_lines:
+                continue
             res.verdict = "violation"
-            res.detail = f"line {ln!r} ignored for reason {reason!r}"
-            res.witness = {"script": src, "class": "ignored-line"}
-            return res
+            res.detail = (f"{where}: the line {ln!r} was skipped without a diagnostic (reason {reason!r}) although it is "
+                          "neither a host-only statement nor part of a multi-line string")
+            res.witness = {"script": text, "class": "ignored-line"}
+            return False
+        return True
+    if not audit(src, base[2], "original layout"):
+        return res
     for name, variant in relayouts(src).items():
         n += 1
         got = tr(variant)
+        if not audit(variant, got[2], f"re-layout '{name}'"):
+            return res
         if got[:2] != base[:2]:
             res.verdict = "violation"
             if got[0] != base[0]:
@@ -506,7 +599,7 @@ def run(tier, seed, only=None):
                     "every path.  Header recognisers: z3's regular-expression theory decides whether a valid header spelling "
                     "exists that the live pattern rejects.  _strip_inline_comment: CrossHair against a reference scanner over "
                     "the alphabet {space # ' \" \\ a :}.  Cross-check through the real pipeline: every skeleton is re-laid-out "
-                    "in 13 meaning-preserving ways (ast-equal by construction) and must yield byte-identical firmware; with "
+                    "in 18 meaning-preserving ways (ast-equal by construction) and must yield byte-identical firmware; with "
                     "REDUINO_VERIF=1 the parser's ignored-line log may contain only host-only statements and fragments.  accounted/*: "
                     "the F-vs-H trace differential of C01 on the statement-kind x block-context product family.",
         functions_encoded=["parser._indent_of/_collect_block/_collect_if_structure/_collect_try_structure (pysym)",
@@ -514,7 +607,7 @@ def run(tier, seed, only=None):
                            "parser._strip_inline_comment (CrossHair)", "parse()+emit() on re-laid-out scripts"],
         bounds={"block lines": n, "indent": "0..3 units; unit in {1 space, 2 spaces, tab}", "header line length": "<= 40",
                 "comment lemma": "len <= 5 (quick) / 7 over a 7-letter alphabet",
-                "accounted": "26 statement kinds x 19 block contexts, 2 loop passes, sensor values symbolic", "layout variants per script": 13},
+                "accounted": "26 statement kinds x 19 block contexts, 2 loop passes, sensor values symbolic", "layout variants per script": 18},
         assumptions=["the layout cross-check is concrete (one run per variant); its deciding parts are the symbolic block/regex/"
                      "comment obligations", "Python requires block bodies to be indented deeper than their header"],
         stubs=[],
